@@ -38,3 +38,12 @@ pub fn shim_slice_read_u16<'a>(data: &mut &'a [u8]) -> (r: io::Result<u16>)
 #[verifier::reject_recursive_types(T)]
 #[verifier::external_type_specification]
 pub struct ExWrapping<T>(std::num::Wrapping<T>);
+
+// `?` on an io::Result inside a function returning ZipResult converts the error with `From::from`
+// (language definition of `?`).  The installed vstd specifies that conversion only through the uninterpreted
+// relation `spec_from` and knows it for the identity conversion alone; this axiom ties it to the From spec of
+// ZipError (shims/prelude.rs: from_spec(e) == ZipError::Io(e), the body of the real `impl From<io::Error>`).
+// ASSUMED.  Needed where a postcondition speaks about WHICH error a `?` exit returns (switch_to).
+pub broadcast axiom fn axiom_question_mark_converts_with_from(e: io::Error, z: ZipError)
+    ensures #[trigger] vstd::std_specs::control_flow::spec_from::<ZipError, io::Error>(e, z)
+        ==> z == <ZipError as vstd::std_specs::convert::FromSpec<io::Error>>::from_spec(e);
